@@ -8,7 +8,8 @@ Case line (one history):
                 <pfx>   '-' : class body defines no __prefix__ ;  '=<text>' : __prefix__ = <text> ;
                         optionally followed by '^<k>': the class is a subclass of (earlier) class k and
                         inherits its __prefix__ and attributes unless it restates them
-                <attr>  'name=T:<vid>:<default>'   plain typed attribute, validator number <vid>
+                <attr>  'name=T:<vid>:<default>[:<n|i|e>]'  typed attribute, validator number <vid>, comparison
+                                                   mode none / identity / equality (default e)
                         'name=D:<rawprefix>'       DelegatesTo('d', prefix=<rawprefix>)
                         'name=P:<rawprefix>'       PrototypedFrom('d', prefix=<rawprefix>)
               every class also has the delegate reference attribute  d = Instance(HasTraits)
@@ -51,7 +52,7 @@ def exc_short(e):
 # ----------------------------------------------------------------- parsing
 
 class AttrSpec:
-    __slots__ = ("name", "kind", "vid", "dflt", "raw")
+    __slots__ = ("name", "kind", "vid", "dflt", "raw", "cmp")
 
     def __init__(self, s):
         self.name, _, rest = s.partition("=")
@@ -59,8 +60,11 @@ class AttrSpec:
         self.kind = parts[0]
         if self.kind == "T":
             self.vid, self.dflt, self.raw = int(parts[1]), int(parts[2]), None
+            self.cmp = parts[3] if len(parts) > 3 else "e"
+            if self.cmp not in ("n", "i", "e"):
+                raise ValueError(s)
         elif self.kind in ("D", "P"):
-            self.vid = self.dflt = None
+            self.vid = self.dflt = self.cmp = None
             self.raw = parts[1] if len(parts) > 1 else ""
         else:
             raise ValueError(s)
@@ -144,10 +148,15 @@ class Env:
         self.specs = [s.split(":") for s in specs]
         self.op_index = 0
         self.calls = []
+        self.world = None
 
-    def validate(self, vid, x):
-        self.calls.append((vid, x))
-        return self.pure(vid, self.op_index, x)
+    def validate(self, vid, obj):
+        """Called by the real trait with the real object; returns the very object when the validator does not
+        change the value (identity matters)."""
+        tok = self.world.tok(obj)
+        self.calls.append((vid, tok))
+        r = self.pure(vid, self.op_index, tok)
+        return obj if r == tok else self.world.obj(r)
 
     def pure(self, vid, k, x):
         from traits.api import TraitError
@@ -157,7 +166,7 @@ class Env:
         if s[0] == "id":
             return x
         if s[0] == "mod7":
-            return x % 7
+            return x if x >= 100 else x % 7
         if s[0] == "rejneg":
             if x < 0:
                 raise TraitError("negative")
@@ -172,17 +181,34 @@ class Env:
 
 # ----------------------------------------------------------------- the real objects
 
+# Values are written as *tokens*: an int below 100 is that (small, interned) int; a token from 100 on is one
+# fixed object of the case, so that equal-but-distinct objects occur: 1 == 1.0 == True, two equal tuples, two
+# equal lists, floats equal to the int defaults.  EQCLASS is Python's `==` on the pool (twin of the Lean driver).
+SPECIAL = {100: lambda: float("1"), 101: lambda: True, 102: lambda: tuple([1, 2]), 103: lambda: tuple([1, 2]),
+           104: lambda: float("3"), 105: lambda: float("4"), 106: lambda: [5], 107: lambda: [5]}
+EQCLASS = {100: 1, 101: 1, 102: 1000, 103: 1000, 104: 3, 105: 4, 106: 1001, 107: 1001}
+
+
+def eq_class(tok):
+    return EQCLASS.get(tok, tok)
+
+
 class World:
     """The pool built from the REAL classes."""
 
     def __init__(self, classes, objects, validators):
         from traits.api import HasTraits, Instance, DelegatesTo, PrototypedFrom, TraitType
+        from traits.constants import ComparisonMode
         self.classes, self.env = classes, Env(validators)
         env = self.env
+        env.world = self
+        self.special = {t: f() for t, f in SPECIAL.items()}
+        self.tok_of_id = {id(o): t for t, o in self.special.items()}
+        modes = {"n": ComparisonMode.none, "i": ComparisonMode.identity, "e": ComparisonMode.equality}
 
         class VT(TraitType):
-            def __init__(self, vid, dflt):
-                super().__init__(dflt)
+            def __init__(self, vid, dflt, cmp):
+                super().__init__(dflt, comparison_mode=modes[cmp])
                 self.vid = vid
 
             def validate(self, object, name, value):
@@ -195,7 +221,7 @@ class World:
                 ns["__prefix__"] = c.own_pfx
             for a in c.own_attrs:
                 if a.kind == "T":
-                    ns[a.name] = VT(a.vid, a.dflt)
+                    ns[a.name] = VT(a.vid, a.dflt, a.cmp)
                 elif a.kind == "D":
                     ns[a.name] = DelegatesTo("d", prefix=a.raw)
                 else:
@@ -217,22 +243,33 @@ class World:
         ev = self.events
 
         def h(obj, name, old, new):
-            ev.append((i, name, old, new))
+            ev.append((i, name, self.tok(old), self.tok(new)))
         return h
 
     def _obs(self, i):
         ev = self.oevents
 
         def h(event):
-            ev.append((i, event.name, event.old, event.new))
+            ev.append((i, event.name, self.tok(event.old), self.tok(event.new)))
         return h
 
     # -- observations
     def spec(self, i):
         return self.classes[self.cls_of[i]]
 
+    def tok(self, obj):
+        t = self.tok_of_id.get(id(obj))
+        if t is not None:
+            return t
+        if type(obj) is int and -100 < obj < 100:
+            return obj
+        return "?%s" % type(obj).__name__
+
+    def obj(self, tok):
+        return self.special[tok] if tok in self.special else tok
+
     def read(self, i, name):
-        return getattr(self.objs[i], name)
+        return self.tok(getattr(self.objs[i], name))
 
     def snapshot(self):
         """{(obj, name): int | '!X'} over all declared attributes."""
@@ -240,7 +277,7 @@ class World:
         for i, o in enumerate(self.objs):
             for a in self.spec(i).attrs:
                 try:
-                    out[(i, a.name)] = getattr(o, a.name)
+                    out[(i, a.name)] = self.tok(getattr(o, a.name))
                 except Exception as e:
                     out[(i, a.name)] = exc_short(e)
         return out
@@ -362,6 +399,11 @@ SHAPES = {
                   "0,1,2,3,4,4"),
     "redeclare2": ("=a_,x=D:*,y=P:*/=b_^0,y=D:a_*/-^0,x=D:b_*,y=P:/"
                    "-,a_x=T:0:3,a_y=T:1:4,b_x=T:0:5,b_y=T:1:6,x=T:0:7,y=T:1:8", "0,1,2,3,3"),
+    # comparison modes of the TARGET trait (identity / none / equality) with equal-but-distinct values: the
+    # handlers of the deferring attribute hear exactly the changes the target's trait reports
+    "cmp-D": ("-,a=D:,b=D:,c=D:,pa=P:a/-,a=T:0:3:i,b=T:0:3:n,c=T:0:3:e", "0,0,1,1"),
+    "cmp-P": ("-,a=P:,b=P:,c=P:,dc=D:c/-,a=T:0:3:i,b=T:0:4:n,c=T:0:3:e", "0,0,1,1"),
+    "cmp-chain": ("-,a=D:,b=P:,c=D:/-,a=P:,b=D:,c=D:/-,a=T:0:3:i,b=T:1:4:n,c=T:0:1:e", "0,1,2,2"),
     # malformed: target missing on the delegate's class; '*' without __prefix__; empty __prefix__
     "missing": ("-,x=D:nope,y=P:nope/-,x=T:0:3", "0,0,1"),
     "star-nopfx": ("-,x=D:*/-,x=T:0:3", "0,1"),
@@ -370,6 +412,9 @@ SHAPES = {
 MAIN_SHAPES = ["same-D", "same-P", "expl-D", "expl-P", "pre-D", "pre-P", "star-D", "star-P"]
 CHAIN_SHAPES = ["D-P-T", "P-D-T", "self-D", "star2-same", "star2-diff", "star2-diffP", "star2-deep", "pre-chain"]
 ODD_SHAPES = ["missing", "star-nopfx", "star-emptypfx"]
+CMP_SHAPES = ["cmp-D", "cmp-P", "cmp-chain"]
+# tokens of equal-but-distinct objects (see SPECIAL) next to the ints they are equal to
+CMP_VALUES = [1, 100, 101, 1, 100, 3, 104, 3, 4, 105, 102, 103, 102, 106, 107, 2]
 SUB_SHAPES = ["star-sub", "star-sub2", "sub-styles", "redeclare", "redeclare2"]
 
 
@@ -407,7 +452,10 @@ def random_history(rng, shape, maxops=12, build_first=None):
         o = rng.randrange(n)
         nm = names(o)
         if r < 0.40:
-            v = rng.choice([0, 1, 2, 3, 4, 5, 6, 7, 8, 9, 11, 12]) if rng.random() < 0.8 else rng.choice([-1, -2, -5])
+            if shape in CMP_SHAPES:
+                v = rng.choice(CMP_VALUES) if rng.random() < 0.92 else rng.choice([-1, 5])
+            else:
+                v = rng.choice([0, 1, 2, 3, 4, 5, 6, 7, 8, 9, 11, 12]) if rng.random() < 0.8 else rng.choice([-1, -2, -5])
             ops.append("st %d %s %d" % (o, rng.choice(nm), v))
         elif r < 0.55:
             ops.append("dl %d %s" % (o, rng.choice(nm)))
@@ -419,6 +467,8 @@ def random_history(rng, shape, maxops=12, build_first=None):
         else:
             ops.append("st %d %s %d" % (o, rng.choice(["nope", "zz"]), rng.randint(0, 9)))
     vals = random_validators(rng, len(ops))
+    if shape in CMP_SHAPES and rng.random() < 0.7:
+        vals = ["id", "id"]
     return "dg|%s|%s|%s|%s" % (classes, objects, ",".join(vals), ";".join(ops))
 
 
